@@ -177,6 +177,17 @@ type c24World struct {
 
 func (w *c24World) history() string { return strings.Join(w.log, " ; ") }
 
+func (w *c24World) classList() []string {
+	classes := make([]string, 0, len(w.classes))
+	for c := range w.classes {
+		classes = append(classes, c)
+	}
+
+	sort.Strings(classes)
+
+	return classes
+}
+
 func (w *c24World) checkBallot(k c24BallotKey, why string) {
 	bl, found, err := w.pool.Ballot(k.point(), k.stage, k.sc)
 	if err != nil {
@@ -296,11 +307,21 @@ func (w *c24World) setBallot(k c24BallotKey, variant, nexpels int) {
 	bl := c24MakeBallot(w.t, k, variant, nexpels)
 	w.log = append(w.log, fmt.Sprintf("SetBallot(%s,fact%d,expels%d)", k, variant, nexpels))
 
+	w.offerBallot(bl, k)
+}
+
+// offerBallot calls SetBallot on a healthy storage and judges the answer and the lookup against the model; the
+// description of the step is already the last entry of the log.
+func (w *c24World) offerBallot(bl base.Ballot, k c24BallotKey) {
 	added, err := w.pool.SetBallot(bl)
 	if err != nil {
 		w.t.Fatalf("SetBallot: %v", err)
 	}
 
+	w.judgeSetBallot(bl, k, added)
+}
+
+func (w *c24World) judgeSetBallot(bl base.Ballot, k c24BallotKey, added bool) {
 	m := w.ballots[k]
 
 	switch {
@@ -324,14 +345,57 @@ func (w *c24World) setBallot(k c24BallotKey, variant, nexpels int) {
 
 func (w *c24World) setProposal(fact isaac.ProposalFact, x c24Triple, how string) {
 	pr := c24SignProposal(w.t, fact, x.proposer)
-	fh := fact.Hash().String()
 	w.log = append(w.log, fmt.Sprintf("SetProposal(%s,%s,%d ops)", x, how, len(fact.Operations())))
 
+	w.offerProposal(pr, fact, x)
+}
+
+// offerProposal calls SetProposal on a healthy storage and judges the answer and both lookups against the model; the
+// description of the step is already the last entry of the log.
+func (w *c24World) offerProposal(pr base.ProposalSignFact, fact isaac.ProposalFact, x c24Triple) {
 	added, err := w.pool.SetProposal(pr)
 	if err != nil {
 		w.t.Fatalf("SetProposal: %v", err)
 	}
 
+	w.judgeSetProposal(pr, fact, x, added)
+}
+
+// registerProposal enters the first proposal of a fact into the model.
+func (w *c24World) registerProposal(fact isaac.ProposalFact, x c24Triple, rendering string) *c24Proposal {
+	fh := fact.Hash().String()
+
+	m := &c24Proposal{triple: x, fact: fact, first: rendering}
+	w.proposals[fh] = m
+
+	if w.otherLiveFacts(x, fh) == 0 {
+		delete(w.cleaned, x)
+		delete(w.multi, x)
+	} else {
+		w.multi[x] = true
+		w.classes["position-with-2+-facts"] = true
+	}
+
+	w.byTriple[x] = append(w.byTriple[x], fh)
+
+	return m
+}
+
+// otherLiveFacts counts the facts other than fh that the model holds for position x.
+func (w *c24World) otherLiveFacts(x c24Triple, fh string) int {
+	live := 0
+
+	for _, other := range w.byTriple[x] {
+		if _, ok := w.proposals[other]; ok && other != fh {
+			live++
+		}
+	}
+
+	return live
+}
+
+func (w *c24World) judgeSetProposal(pr base.ProposalSignFact, fact isaac.ProposalFact, x c24Triple, added bool) {
+	fh := fact.Hash().String()
 	m := w.proposals[fh]
 
 	switch {
@@ -342,27 +406,8 @@ func (w *c24World) setProposal(fact isaac.ProposalFact, x c24Triple, how string)
 	}
 
 	if m == nil {
-		m = &c24Proposal{triple: x, fact: fact, first: c24Render(w.t, w.enc, pr)}
-		w.proposals[fh] = m
-
-		live := 0
-
-		for _, other := range w.byTriple[x] {
-			if _, ok := w.proposals[other]; ok && other != fh {
-				live++
-			}
-		}
-
-		if live == 0 {
-			delete(w.cleaned, x)
-			delete(w.multi, x)
-		} else {
-			w.multi[x] = true
-			w.classes["position-with-2+-facts"] = true
-		}
-
-		w.byTriple[x] = append(w.byTriple[x], fh)
-	} else {
+		m = w.registerProposal(fact, x, c24Render(w.t, w.enc, pr))
+	} else if c24Render(w.t, w.enc, pr) != m.first {
 		w.nontrivial = true // a second, differently signed proposal for a stored fact
 	}
 
@@ -370,6 +415,283 @@ func (w *c24World) setProposal(fact isaac.ProposalFact, x c24Triple, how string)
 
 	w.checkProposal(fh, "after "+w.log[len(w.log)-1])
 	w.checkByPoint(x, "after "+w.log[len(w.log)-1])
+}
+
+// ---- storage write faults (hook H3)
+
+// c24Fault refuses writes of one storage: once armed, the k-th write (Put, Delete or Batch, counted from arming) is
+// refused, i.e. it returns an error and nothing of it reaches the storage, as if the storage broke or the process died
+// at that write; with sticky every later write is refused as well until disarm.
+type c24Fault struct {
+	mu     sync.Mutex
+	armed  bool
+	k      int
+	sticky bool
+	seen   int
+	fired  int
+	kinds  []string
+}
+
+var errC24Injected = errors.New("verif: injected storage write failure")
+
+var c24Faults sync.Map // *leveldbstorage.Storage -> *c24Fault
+
+// c24FaultController is installed as the process-wide H3 controller while TestC24 runs; storages of other tests are
+// not registered and pass untouched.
+func c24FaultController(st *leveldbstorage.Storage, kind string, n int) error {
+	i, ok := c24Faults.Load(st)
+	if !ok {
+		return nil
+	}
+
+	return i.(*c24Fault).write(kind, n) //nolint:forcetypeassert //...
+}
+
+func (f *c24Fault) write(kind string, n int) error {
+	f.mu.Lock()
+	defer f.mu.Unlock()
+
+	if !f.armed {
+		return nil
+	}
+
+	f.seen++
+	f.kinds = append(f.kinds, fmt.Sprintf("%s/%d", kind, n))
+
+	if f.seen == f.k || (f.sticky && f.seen > f.k) {
+		f.fired++
+
+		return errC24Injected
+	}
+
+	return nil
+}
+
+func (f *c24Fault) arm(k int, sticky bool) {
+	f.mu.Lock()
+	defer f.mu.Unlock()
+
+	f.armed, f.k, f.sticky, f.seen, f.fired, f.kinds = true, k, sticky, 0, 0, nil
+}
+
+// disarm returns how many writes were refused and how many writes the call issued while armed.
+func (f *c24Fault) disarm() (fired, seen int) {
+	f.mu.Lock()
+	defer f.mu.Unlock()
+
+	f.armed = false
+
+	return f.fired, f.seen
+}
+
+// c24FaultPlan: which write of the call is refused and what the caller does afterwards.
+type c24FaultPlan struct {
+	k      int    // 1..3: the k-th write of the call is refused (a call that issues fewer writes runs unharmed)
+	sticky bool   // the storage keeps refusing until the call returned
+	follow string // "", "retry", "reopen", "restart", and the two-step combinations
+}
+
+var c24Follows = []string{"", "retry", "reopen", "restart", "retry+reopen", "retry+restart", "reopen+retry", "restart+retry"}
+
+func (p c24FaultPlan) String() string {
+	s := fmt.Sprintf("write #%d", p.k)
+	if p.sticky {
+		s += "+ (all later ones too)"
+	}
+
+	return s
+}
+
+// reopen closes the pool and opens a new one on the same storage; with restart the leveldb storage itself is closed
+// and opened again from its (in-memory) files, as a restarted process does.
+func (w *c24World) reopen(restart bool) {
+	if err := w.pool.Close(); err != nil {
+		w.t.Fatalf("close: %v", err)
+	}
+
+	what := "reopen"
+
+	if restart {
+		what = "restart"
+
+		c24Faults.Delete(w.st)
+
+		if err := w.st.Close(); err != nil {
+			w.t.Fatalf("close storage: %v", err)
+		}
+
+		st, err := leveldbstorage.NewStorage(w.str, nil)
+		if err != nil {
+			w.t.Fatalf("open storage again: %v", err)
+		}
+
+		w.st = st
+		c24Faults.Store(w.st, w.fault)
+	}
+
+	w.pool = newTempPool(w.t, w.st, w.encs, w.enc, 0)
+	w.log = append(w.log, what)
+	w.classes["step:"+what] = true
+	w.checkAll("after " + what)
+}
+
+func (w *c24World) follow(follow string, retry func()) {
+	if follow == "" {
+		return
+	}
+
+	for _, f := range strings.Split(follow, "+") {
+		switch f {
+		case "retry":
+			retry()
+		case "reopen":
+			w.reopen(false)
+		case "restart":
+			w.reopen(true)
+		}
+	}
+}
+
+// faultSetProposal: SetProposal while the storage refuses the plan's write, then the plan's follow-up. The statement's
+// consistency clause has no exception for a call that failed: whatever the pool keeps for the fact afterwards, the
+// by-point lookup returns the same. So the failed call leaves nothing (both lookups find nothing new) or everything
+// (both find the offered proposal), and the same holds after the same SetProposal is called again on the healthy
+// storage (which must then store it, or find it stored) and after the pool / the storage was opened again.
+func (w *c24World) faultSetProposal(fact isaac.ProposalFact, x c24Triple, how string, plan c24FaultPlan) {
+	pr := c24SignProposal(w.t, fact, x.proposer)
+	fh := fact.Hash().String()
+	offered := c24Render(w.t, w.enc, pr)
+
+	w.log = append(w.log, fmt.Sprintf("SetProposal(%s,%s,%d ops) while the storage refuses %s", x, how, len(fact.Operations()), plan))
+
+	w.fault.arm(plan.k, plan.sticky)
+	added, err := w.pool.SetProposal(pr)
+	fired, seen := w.fault.disarm()
+
+	w.log[len(w.log)-1] += fmt.Sprintf(" -> stored=%v, error=%v, %d of %d writes refused", added, err != nil, fired, seen)
+	why := "after " + w.log[len(w.log)-1]
+
+	if fired > 0 {
+		w.nontrivial = true
+		w.classes[fmt.Sprintf("fault:setproposal:write#%d-refused", plan.k)] = true
+	} else {
+		w.classes["fault:setproposal:no-write-refused"] = true
+	}
+
+	switch {
+	case err == nil:
+		// nothing was refused (stored fact: the call returns before it writes; k beyond the writes of the call), or the
+		// call claims success although a write was refused: either way it is judged like every other successful call
+		w.judgeSetProposal(pr, fact, x, added)
+	case fired < 1:
+		w.t.Fatalf("SetProposal: %v", err)
+	default:
+		if added {
+			w.r.Violation(w.t, "setproposal-error-and-stored", "SetProposal(%s) returned an error and 'stored' at the same time; history: %s", x, w.history())
+		}
+
+		if w.proposals[fh] == nil {
+			got, found, gerr := w.pool.Proposal(fact.Hash())
+			if gerr != nil {
+				w.t.Fatalf("Proposal: %v", gerr)
+			}
+
+			switch {
+			case !found:
+				w.classes["fault:failed-setproposal-left-nothing"] = true
+			case c24Render(w.t, w.enc, got) != offered:
+				w.r.Violation(w.t, "proposal-found-never-stored", "%s: Proposal(fact of %s) returns a proposal that is not the offered one, and none was stored for the fact before; history: %s", why, x, w.history())
+			default:
+				// the pool keeps the offered proposal for the fact: it is the first one of the fact from now on
+				w.classes["fault:failed-setproposal-left-the-proposal"] = true
+
+				w.registerProposal(fact, x, offered)
+
+				_, nodes := poolFixtures(nil)
+
+				_, bfound, berr := w.pool.ProposalByPoint(base.RawPoint(x.h, x.r), nodes[x.proposer], c24Hash(fmt.Sprintf("prevblock-%d", x.prev)))
+				if berr != nil {
+					w.t.Fatalf("ProposalByPoint: %v", berr)
+				}
+
+				// which proposal a found by-point entry must be (this one, or under an equivocated position any stored
+				// one) is judged by checkByPoint below
+				if !bfound {
+					w.r.Violation(w.t, "setproposal-partial-write", "%s: the failed SetProposal left the proposal under its fact (Proposal finds it) without its by-point entry (ProposalByPoint(%s) finds nothing); history: %s",
+						why, x, w.history())
+				}
+			}
+		}
+
+		if w.proposals[fh] != nil {
+			w.checkProposal(fh, why)
+		}
+
+		w.checkByPoint(x, why)
+	}
+
+	w.follow(plan.follow, func() {
+		w.log = append(w.log, fmt.Sprintf("SetProposal(%s,the same proposal again,%d ops)", x, len(fact.Operations())))
+		w.offerProposal(pr, fact, x)
+	})
+}
+
+// faultSetBallot: the same for SetBallot. A failed call leaves nothing or the offered ballot; the same SetBallot on the
+// healthy storage afterwards stores it or finds it stored.
+func (w *c24World) faultSetBallot(k c24BallotKey, variant, nexpels int, plan c24FaultPlan) {
+	bl := c24MakeBallot(w.t, k, variant, nexpels)
+	offered := c24Render(w.t, w.enc, bl)
+
+	w.log = append(w.log, fmt.Sprintf("SetBallot(%s,fact%d,expels%d) while the storage refuses %s", k, variant, nexpels, plan))
+
+	w.fault.arm(plan.k, plan.sticky)
+	added, err := w.pool.SetBallot(bl)
+	fired, seen := w.fault.disarm()
+
+	w.log[len(w.log)-1] += fmt.Sprintf(" -> stored=%v, error=%v, %d of %d writes refused", added, err != nil, fired, seen)
+	why := "after " + w.log[len(w.log)-1]
+
+	if fired > 0 {
+		w.nontrivial = true
+		w.classes[fmt.Sprintf("fault:setballot:write#%d-refused", plan.k)] = true
+	} else {
+		w.classes["fault:setballot:no-write-refused"] = true
+	}
+
+	switch {
+	case err == nil:
+		w.judgeSetBallot(bl, k, added)
+	case fired < 1:
+		w.t.Fatalf("SetBallot: %v", err)
+	default:
+		if added {
+			w.r.Violation(w.t, "setballot-error-and-stored", "SetBallot(%s) returned an error and 'stored' at the same time; history: %s", k, w.history())
+		}
+
+		if w.ballots[k] == nil {
+			got, found, gerr := w.pool.Ballot(k.point(), k.stage, k.sc)
+			if gerr != nil {
+				w.t.Fatalf("Ballot: %v", gerr)
+			}
+
+			switch {
+			case !found:
+				w.classes["fault:failed-setballot-left-nothing"] = true
+			case c24Render(w.t, w.enc, got) != offered:
+				w.r.Violation(w.t, "ballot-found-never-stored", "%s: Ballot(%s) returns a ballot that is not the offered one, and none was stored for the key before; history: %s", why, k, w.history())
+			default:
+				w.classes["fault:failed-setballot-left-the-ballot"] = true
+				w.ballots[k] = &c24Ballot{key: k, first: offered}
+			}
+		}
+
+		w.checkBallot(k, why)
+	}
+
+	w.follow(plan.follow, func() {
+		w.log = append(w.log, fmt.Sprintf("SetBallot(%s,the same ballot again)", k))
+		w.offerBallot(bl, k)
+	})
 }
 
 // cleanupClass records which side of the depth boundary a cleanup ran on (top = newest height in the model, -1 = empty).
@@ -505,6 +827,33 @@ func c24DrawTriple(t *rapid.T, base0 int64, span int) c24Triple {
 	return x
 }
 
+func c24DrawFaultPlan(t *rapid.T) c24FaultPlan {
+	return c24FaultPlan{
+		k:      rapid.IntRange(1, 3).Draw(t, "refusedWrite"),
+		sticky: rapid.Bool().Draw(t, "sticky"),
+		follow: rapid.SampledFrom(c24Follows).Draw(t, "follow"),
+	}
+}
+
+// sortedProposals: the fact hashes of the model in a history-determined order (position, then first rendering).
+func (w *c24World) sortedProposals() []string {
+	fhs := make([]string, 0, len(w.proposals))
+	for fh := range w.proposals {
+		fhs = append(fhs, fh)
+	}
+
+	sort.Slice(fhs, func(i, j int) bool {
+		a, b := w.proposals[fhs[i]], w.proposals[fhs[j]]
+		if a.triple != b.triple {
+			return a.triple.String() < b.triple.String()
+		}
+
+		return a.first < b.first
+	})
+
+	return fhs
+}
+
 func (w *c24World) sequential(t *rapid.T, steps int) {
 	// The height window is [base0, base0+span). Low windows (base0 0 with span 1..5, i.e. newest height 0..4) are the
 	// pools of a chain right after its genesis: as long as the newest stored height is below the cleanup depth no
@@ -520,7 +869,8 @@ func (w *c24World) sequential(t *rapid.T, steps int) {
 		kind := rapid.SampledFrom([]string{
 			"nop", "setBallot", "setBallot", "setBallot", "resetBallot", "resetBallot", "getBallot",
 			"setProposal", "setProposal", "resignProposal", "resignProposal", "equivocateProposal", "getProposal", "getByPoint",
-			"cleanBallots", "cleanProposals", "reopen",
+			"cleanBallots", "cleanProposals", "reopen", "restart",
+			"faultSetProposal", "faultSetProposal", "faultSetBallot",
 		}).Draw(t, "step")
 
 		if kind == "nop" {
@@ -555,19 +905,7 @@ func (w *c24World) sequential(t *rapid.T, steps int) {
 				continue
 			}
 
-			fhs := make([]string, 0, len(w.proposals))
-			for fh := range w.proposals {
-				fhs = append(fhs, fh)
-			}
-
-			sort.Slice(fhs, func(i, j int) bool {
-				a, b := w.proposals[fhs[i]], w.proposals[fhs[j]]
-				if a.triple != b.triple {
-					return a.triple.String() < b.triple.String()
-				}
-
-				return a.first < b.first
-			})
+			fhs := w.sortedProposals()
 
 			m := w.proposals[rapid.SampledFrom(fhs).Draw(t, "which")]
 
@@ -593,13 +931,35 @@ func (w *c24World) sequential(t *rapid.T, steps int) {
 		case "cleanProposals":
 			w.cleanup("proposals")
 		case "reopen":
-			if err := w.pool.Close(); err != nil {
-				t.Fatalf("close: %v", err)
+			w.reopen(false)
+		case "restart":
+			w.reopen(true)
+		case "faultSetProposal":
+			plan := c24DrawFaultPlan(t)
+
+			var fhs []string
+
+			target := rapid.SampledFrom([]string{"new", "new", "new", "used-position", "stored-fact"}).Draw(t, "target")
+			if target != "new" {
+				fhs = w.sortedProposals()
 			}
 
-			w.pool = newTempPool(t, w.st, w.encs, w.enc, 0)
-			w.log = append(w.log, "reopen")
-			w.checkAll("after reopen")
+			switch {
+			case len(fhs) == 0:
+				x := c24DrawTriple(t, base0, span)
+				salt++
+				w.faultSetProposal(c24MakeProposalFact(x, rapid.IntRange(0, 4).Draw(t, "nops"), fmt.Sprintf("s%d", salt)), x, "new fact", plan)
+			case target == "used-position":
+				m := w.proposals[rapid.SampledFrom(fhs).Draw(t, "which")]
+				salt++
+				w.faultSetProposal(c24MakeProposalFact(m.triple, rapid.IntRange(0, 4).Draw(t, "nops"), fmt.Sprintf("s%d", salt)), m.triple, "another fact for a used position", plan)
+			default:
+				m := w.proposals[rapid.SampledFrom(fhs).Draw(t, "which")]
+				w.faultSetProposal(m.fact, m.triple, "same fact signed again", plan)
+			}
+		case "faultSetBallot":
+			plan := c24DrawFaultPlan(t)
+			w.faultSetBallot(c24DrawKey(t, base0, span), rapid.IntRange(0, 1).Draw(t, "factVariant"), rapid.IntRange(0, 2).Draw(t, "expels"), plan)
 		}
 	}
 
@@ -611,6 +971,36 @@ func (w *c24World) sequential(t *rapid.T, steps int) {
 type c24Obs struct {
 	who  string
 	seen []string // distinct consecutive renderings observed ("" = not found)
+}
+
+// c24PairObs counts what one reader saw in its (Proposal, ProposalByPoint) lookup pairs.
+type c24PairObs struct {
+	judged                           int // pairs that began after a SetProposal of the fact had returned
+	factMissingAfterReturn           int
+	pointMissingAfterReturn          int
+	pointMissingFactFoundAfterReturn int
+	inFlightFactWithoutPoint         int // found by fact, not by point, while no SetProposal had returned yet
+}
+
+func (o *c24PairObs) see(after, byFact, byPoint bool) {
+	switch {
+	case after:
+		o.judged++
+
+		if !byFact {
+			o.factMissingAfterReturn++
+		}
+
+		if !byPoint {
+			o.pointMissingAfterReturn++
+
+			if byFact {
+				o.pointMissingFactFoundAfterReturn++
+			}
+		}
+	case byFact && !byPoint:
+		o.inFlightFactWithoutPoint++
+	}
 }
 
 func (o *c24Obs) see(s string) {
@@ -658,7 +1048,7 @@ func (w *c24World) concurrentProposals(g, readers, nops int, withCleaner bool, x
 
 	var wg, rwg sync.WaitGroup
 
-	var done atomic.Bool
+	var done, returned atomic.Bool
 
 	added := make([]bool, g)
 	errs := make([]error, g+readers+1)
@@ -671,10 +1061,15 @@ func (w *c24World) concurrentProposals(g, readers, nops int, withCleaner bool, x
 			<-start
 
 			added[i], errs[i] = w.pool.SetProposal(offers[i])
+
+			if errs[i] == nil {
+				returned.Store(true) // from now on the fact is stored, whoever stored it
+			}
 		}(i)
 	}
 
 	obs := make([]*c24Obs, 0, 2*readers)
+	pairs := make([]c24PairObs, readers)
 
 	for i := 0; i < readers; i++ {
 		byHash, byPoint := &c24Obs{who: fmt.Sprintf("reader%d/Proposal", i)}, &c24Obs{who: fmt.Sprintf("reader%d/ProposalByPoint", i)}
@@ -691,12 +1086,16 @@ func (w *c24World) concurrentProposals(g, readers, nops int, withCleaner bool, x
 					last = true // one more round after all writers returned
 				}
 
+				after := returned.Load() // a SetProposal of the fact had returned before this pair of lookups began
+
 				pr, found, err := w.pool.Proposal(fact.Hash())
 				if err != nil {
 					errs[g+i] = err
 
 					return
 				}
+
+				foundByFact := found
 
 				if found {
 					b, _ := w.enc.Marshal(pr)
@@ -714,6 +1113,8 @@ func (w *c24World) concurrentProposals(g, readers, nops int, withCleaner bool, x
 					b, _ := w.enc.Marshal(pr)
 					byPoint.see(string(b))
 				}
+
+				pairs[i].see(after, foundByFact, found)
 
 				if last {
 					return
@@ -781,6 +1182,30 @@ func (w *c24World) concurrentProposals(g, readers, nops int, withCleaner bool, x
 	finalS := c24Render(t, w.enc, final)
 	if _, ok := renders[finalS]; !ok {
 		w.r.Violation(t, "concurrent-proposal-foreign", "the stored proposal is none of the %d offered ones; history: %s", g, w.history())
+	}
+
+	// Once a SetProposal of the fact returned, the pool keeps a proposal for it (heights 60..63 / 40 are the newest, no
+	// cleanup may remove it): from then on every lookup by fact finds it and, by the consistency clause, so does every
+	// lookup by its position. Lookups that began before the first return are not judged (counted only).
+	for i := range pairs {
+		po := &pairs[i]
+
+		switch {
+		case po.factMissingAfterReturn > 0:
+			w.r.Violation(t, "concurrent-proposal-lost", "reader%d: Proposal(fact) found nothing in %d lookups that began after a SetProposal of that fact had returned (SetProposal returned %v); history: %s",
+				i, po.factMissingAfterReturn, added, w.history())
+		case po.pointMissingAfterReturn > 0:
+			w.r.Violation(t, "concurrent-bypoint-lost", "reader%d: ProposalByPoint(%s) found nothing in %d lookups that began after a SetProposal of that position's only fact had returned (Proposal(fact) found it in %d of them; SetProposal returned %v); history: %s",
+				i, x, po.pointMissingAfterReturn, po.pointMissingFactFoundAfterReturn, added, w.history())
+		}
+
+		if po.inFlightFactWithoutPoint > 0 {
+			w.classes["conc:reader-saw-fact-without-point-before-any-return"] = true
+		}
+
+		if po.judged > 0 {
+			w.classes["conc:reader-lookups-after-return"] = true
+		}
 	}
 
 	for _, o := range obs {
@@ -952,36 +1377,113 @@ func TestC24(t *testing.T) {
 	r.Rule("real TempPool over mem leveldb. Sequential part: 14 (quick) / 24 (thorough) drawn steps over a window of 1, 2, 3, 4, 5 or 10 heights (base height 0, 1, 2 or 33, so that the newest stored height is 0..4 " +
 		"(below / at / just above the cleanup depth) as well as 30+; rounds 0..2, round 0 only at the genesis height; " +
 		"INIT/ACCEPT/suffrage-confirm keys; 3 proposers x 2 previous blocks): SetBallot (new key / second ballot for a stored key, same fact signed again or another fact, 0..2 expel operations), " +
-		"Ballot, SetProposal (new fact / same fact signed again / another fact for a used position), Proposal, ProposalByPoint, ballot and proposal cleanup (hook H4, depth 3), reopen; " +
+		"Ballot, SetProposal (new fact / same fact signed again / another fact for a used position), Proposal, ProposalByPoint, ballot and proposal cleanup (hook H4, depth 3), reopen of the pool, restart (close and open the leveldb storage from its files again), " +
+		"SetProposal / SetBallot while the storage refuses the 1st, 2nd or 3rd write of the call (hook H3; only that write or every later one too) followed by nothing / the same call again / reopen / restart / two of them: " +
+		"a call that returned an error leaves nothing or everything (found by fact <=> found by position, the offered value), the repeated call stores it or finds it stored; " +
 		"after every step the touched keys, after cleanup/reopen and at the end all keys are compared with a first-writer-wins map (byte-identical re-encoding). " +
-		"Race trials first: 120 (quick) / 1600 (thorough) trials on an empty pool, 2-6 goroutines released together store distinctly signed proposals of one fact (0/40/300 operations) while 1-2 readers poll. " +
+		"Fault trials first: every (SetProposal of a new fact / of another fact for a used position / of a stored fact, SetBallot of a new / a stored key) x refused write 1..3 x once/from-then-on x 8 follow-ups on a pool holding one proposal and one ballot. " +
+		"Race trials then: 120 (quick) / 1600 (thorough) trials on an empty pool, 2-6 goroutines released together store distinctly signed proposals of one fact (0/40/300 operations) while 1-2 readers poll. " +
 		"Concurrent part (after the sequential one, same pool): 2-8 goroutines released together call SetProposal with distinctly signed proposals of one fact (0..300 operations) while 1-3 readers poll " +
 		"Proposal/ProposalByPoint and optionally a goroutine runs the proposal cleanup; 2-6 SetBallot writers serialised by a mutex (as DefaultBallotBroadcaster does) with unsynchronised readers. " +
-		"Oracles sound for every interleaving: no reader ever sees the stored value change, exactly one writer reports 'stored', the stored value is an offered one. " +
+		"Oracles sound for every interleaving: no reader ever sees the stored value change, exactly one writer reports 'stored', the stored value is an offered one, " +
+		"a reader whose lookups began after some SetProposal of the fact returned finds it by fact and by position. " +
 		"non-trivial: two different values were offered for one key; distinct by the step history")
 	r.Floor(100)
 	r.Assume("SetBallot calls are serialised (DefaultBallotBroadcaster.set holds a mutex; it is the only production caller); SetProposal calls are not",
 		"'newest height' of a cleanup is the newest height present in the pool being cleaned (ballots and proposals separately); the cleanup clause is one-sided (removes only ...)",
 		"while the newest height is below the depth (0..2) no entry is 'at least the depth below the newest height', so a cleanup may remove nothing; the genesis point (0,0) is a valid key (base.Point.IsValid accepts it, the pool API does not exclude it)",
 		"for a position (point, proposer, previous block) under which an equivocating proposer stored several facts, the by-point lookup may return any of the stored first proposals",
-		"'unchanged' is judged on the JSON re-encoding of the returned object (codec faithfulness is C27's subject)")
+		"'unchanged' is judged on the JSON re-encoding of the returned object (codec faithfulness is C27's subject)",
+		"a storage fault is a refused write (Put/Delete/Batch returns an error and nothing of it is stored; goleveldb's atomicity of one write is trusted); the consistency clause has no exception for failed calls: "+
+			"whenever Proposal(fact) finds a proposal, ProposalByPoint of its position finds one too (that same one unless the position is equivocated)",
+		"a by-point entry whose proposal is not stored is invisible through the pool's lookups and is not judged")
 
 	encs, enc := poolEncoders(t)
 	poolFixtures(t)
 
 	newWorld := func(tb ev.TB) (*c24World, func()) {
-		st := leveldbstorage.NewMemStorage()
+		str := leveldbStorage.NewMemStorage()
+
+		st, err := leveldbstorage.NewStorage(str, nil)
+		if err != nil {
+			tb.Fatalf("new storage: %v", err)
+		}
+
 		w := &c24World{
-			t: tb, r: r, enc: enc, encs: encs, st: st,
+			t: tb, r: r, enc: enc, encs: encs, str: str, st: st, fault: &c24Fault{},
 			ballots: map[c24BallotKey]*c24Ballot{}, proposals: map[string]*c24Proposal{},
 			byTriple: map[c24Triple][]string{}, cleaned: map[c24Triple]bool{}, multi: map[c24Triple]bool{}, classes: map[string]bool{},
 		}
 		w.pool = newTempPool(tb, st, encs, enc, 0)
+		c24Faults.Store(st, w.fault)
 
 		return w, func() {
+			c24Faults.Delete(w.st)
 			_ = w.pool.Close()
-			_ = st.Close()
+			_ = w.st.Close() // w.st: a restart step replaces the storage
 		}
+	}
+
+	leveldbstorage.VerifSetFaultController(c24FaultController)
+	defer leveldbstorage.VerifSetFaultController(nil)
+
+	// ---- fault trials: every (call, refused write, follow-up) on a pool that already holds one proposal and one ballot
+	t.Run("fault-trials", func(t *testing.T) {
+		targets := []string{"proposal:new", "proposal:used-position", "proposal:stored-fact", "ballot:new", "ballot:stored-key"}
+		i := 0
+
+		for _, target := range targets {
+			for k := 1; k <= 3; k++ {
+				for _, sticky := range []bool{false, true} {
+					for _, follow := range c24Follows {
+						// a call for a stored fact / key returns before it writes: one plan per follow-up is enough
+						if strings.Contains(target, ":stored-") && (k > 1 || sticky) {
+							continue
+						}
+
+						i++
+
+						if !r.Mine(i) {
+							continue
+						}
+
+						plan := c24FaultPlan{k: k, sticky: sticky, follow: follow}
+
+						w, closef := newWorld(t)
+
+						prior := c24Triple{h: 33, proposer: 1}
+						priorFact := c24MakeProposalFact(prior, 1, "prior")
+						w.setProposal(priorFact, prior, "new fact")
+
+						priorKey := c24BallotKey{h: 33, stage: base.StageINIT}
+						w.setBallot(priorKey, 0, 0)
+
+						switch target {
+						case "proposal:new":
+							x := c24Triple{h: 34, r: 1, proposer: 2, prev: 1}
+							w.faultSetProposal(c24MakeProposalFact(x, 2, "trial"), x, "new fact", plan)
+						case "proposal:used-position":
+							w.faultSetProposal(c24MakeProposalFact(prior, 2, "trial"), prior, "another fact for a used position", plan)
+						case "proposal:stored-fact":
+							w.faultSetProposal(priorFact, prior, "same fact signed again", plan)
+						case "ballot:new":
+							w.faultSetBallot(c24BallotKey{h: 34, r: 1, stage: base.StageACCEPT}, 0, 1, plan)
+						case "ballot:stored-key":
+							w.faultSetBallot(priorKey, 1, 0, plan)
+						}
+
+						w.checkAll("at the end")
+						closef()
+
+						r.Case(fmt.Sprintf("fault-trial:%s:%s:%s", target, plan, follow), w.nontrivial, append(w.classList(), "fault-trial")...)
+					}
+				}
+			}
+		}
+	})
+
+	if t.Failed() {
+		return
 	}
 
 	// ---- race trials on an empty pool (the minimal concurrent history): N writers store distinctly signed proposals of
@@ -1026,14 +1528,7 @@ func TestC24(t *testing.T) {
 			w.drawConcurrentProposals(rt)
 		}
 
-		var classes []string
-		for c := range w.classes {
-			classes = append(classes, c)
-		}
-
-		sort.Strings(classes)
-
-		r.Case(w.history(), w.nontrivial, classes...)
+		r.Case(w.history(), w.nontrivial, w.classList()...)
 
 		if w.nontrivial && r.WantSample() {
 			r.Sample(map[string]any{"history": w.log})
